@@ -146,8 +146,11 @@ def _observe(job):
                 Q = Qin
                 XQ = np.asarray(m.percent_point(Q.copy()), dtype=float)
             fin = np.isfinite(XQ)
-            xm = np.where(fin, np.nextafter(XQ, -np.inf), 0.0)
-            xp = np.where(fin, np.nextafter(XQ, np.inf), 0.0)
+            # "continuous at floating-point resolution": the standardisation (x - loc) / scale inside the model can map several
+            # adjacent doubles to one argument, so the two probes are placed a few ulps (1e-14 of the scale) away, not one
+            dx = 1e-14 * np.maximum(np.abs(np.where(fin, XQ, 0.0)), span)
+            xm = np.where(fin, XQ - dx, 0.0)
+            xp = np.where(fin, XQ + dx, 0.0)
             FM = np.asarray(m.cumulative_distribution(xm), dtype=float)
             FP = np.asarray(m.cumulative_distribution(xp), dtype=float)
             FM[~fin] = np.nan
@@ -159,6 +162,25 @@ def _observe(job):
             sel = (Pd > 1e-2 / span) & (F > 1e-3) & (F < 1 - 1e-3) & (grid >= lo) & (grid <= hi)
             XB = grid[sel][::3]
             XBack = np.asarray(m.percent_point(np.asarray(m.cumulative_distribution(XB.copy()), dtype=float)), dtype=float) if len(XB) else XB
+            # far tails (scipy-backed models; the KDE documents a cut at 1.2e-7 where its percent point returns +-inf)
+            TLo, THi = [], []
+            if 'KDE' not in mname and type(getattr(m, '_instance', None)).__name__ != 'GaussianKDE':
+                for qq in (1e-9, 1e-7, 1e-5):
+                    for upper in (False, True):
+                        x = float(np.ravel(m.percent_point(np.array([1.0 - qq if upper else qq])))[0])
+                        if not np.isfinite(x):
+                            TLo.append(np.nan)
+                            THi.append(np.nan)
+                            continue
+                        d = 1e-13 * max(abs(x), span)
+                        f1 = float(np.ravel(m.cumulative_distribution(np.array([x - d])))[0])
+                        f2 = float(np.ravel(m.cumulative_distribution(np.array([x + d])))[0])
+                        if upper:       # survival function, probes mirrored
+                            t_in, t_out = 1.0 - f2, 1.0 - f1
+                        else:
+                            t_in, t_out = f1, f2
+                        TLo.append(min(t_in / qq, 1e3))       # the side towards the tail end must not exceed q
+                        THi.append(min(t_out / qq, 1e3))      # the side towards the centre must reach q
             LP = np.asarray(m.log_probability_density(grid.copy()), dtype=float)
             pos = Pd > 1e-300
             LPlog = np.log(np.where(pos, Pd, 1.0))
@@ -169,13 +191,14 @@ def _observe(job):
                     'P': O.fx(np.where(np.isposinf(Pd), 1.0 / ps, Pd), ps).tolist(),      # +inf at a singular support end is a legitimate density value
  'I6': fxq(I[6]).tolist(), 'I3': fxq(I[3]).tolist(), 'DF': fxq(DF).tolist(),
                     'Q': fxq(Q).tolist(), 'XQ': fxx(XQ, centre, span).tolist(), 'FM': fxq(FM).tolist(), 'FP': fxq(FP).tolist(),
+                    'TLo': O.fx(np.array(TLo, dtype=float), 1000000).tolist(), 'THi': O.fx(np.array(THi, dtype=float), 1000000).tolist(),
                     'XB': fxx(XB, centre, span).tolist(), 'XBack': fxx(XBack, centre, span).tolist(), 'xtol': 10,
                     'LP': O.fx(np.where(pos, LP, 0.0), LS).tolist(), 'LPlog': O.fx(LPlog, LS).tolist()})
     except Exception as ex:
         import traceback
         rec['err'] = 'raised-' + type(ex).__name__
         rec['trace'] = traceback.format_exc(limit=-2)[-400:]
-        for k_ in ('F', 'P', 'I6', 'I3', 'DF', 'Q', 'XQ', 'FM', 'FP', 'XB', 'XBack', 'LP', 'LPlog'):
+        for k_ in ('F', 'P', 'I6', 'I3', 'DF', 'Q', 'XQ', 'FM', 'FP', 'XB', 'XBack', 'LP', 'LPlog', 'TLo', 'THi'):
             rec.setdefault(k_, [])
         rec.setdefault('Flo', 0)
         rec.setdefault('Fhi', S)
